@@ -274,7 +274,7 @@ CLAIMED = {
         "technique": "Coq proof (case analysis / list induction over a glue model with abstract library results) + differential correspondence on the real entry points",
     },
     "C05": {
-        "text": ("26 theorems (Coq, no axioms) over a model of merger.py (_merge_dicts with its insertion buffer, "
+        "text": ("33 theorems (Coq, no axioms) over a model of merger.py (_merge_dicts with its insertion buffer, "
                  "_merge_simple_lists, _merge_arrays_of_hashes, _merge_lists dispatch, _merge_sets, the _insert_* "
                  "root dispatch, merge_with) and MergerConfig (rule > CLI option > INI default > built-in default, "
                  "rules matched by node identity): precedence for all four option kinds, a rule governs only the "
@@ -283,8 +283,12 @@ CLAIMED = {
                  "left/right/unique, structurally impossible merges raise MergeException at the target and nested "
                  "for every configuration, C05_no_crash (every pair, every configuration: a document, MergeException or "
                  "the NameError of an exhibited bad policy text - no fuel), C05_hash_union (left keys in order, "
-                 "right-only keys in right order, per-key value by policy; key set = union), arrays/AoH UNIQUE "
-                 "and AoH DEEP by identity key as declarative statements, scalar override over the whole loop "
+                 "right-only keys in right order, per-key value by policy; key set = union; the exact index of every "
+                 "right-only key: C05_hash_union_position), arrays/AoH UNIQUE "
+                 "and AoH DEEP by identity key as declarative statements, sets UNIQUE declaratively (result = left members ++ the right-hand "
+                 "members equal to nothing present, in order), Python == transitive on plain documents (guard: no "
+                 "TaggedScalar; _refuted witness without it) which turns the UNIQUE-array chain into one equality, "
+                 "scalar override over the whole loop "
                  "(_partial/_refuted around listed finding F-C05-1).  The regenerated enum names are proof obligations (GenTables).  Tie: all pairs of "
                  "small documents over a colliding alphabet x the 3x4x5x3 policy grid on a core, sampled beyond, "
                  "with per-path rules and identity keys."),
@@ -293,18 +297,22 @@ CLAIMED = {
         "technique": "Coq proof (loop invariants over the merge model; case analysis over the policy grid) + differential correspondence + reference judge",
     },
     "C10": {
-        "text": ("15 theorems (Coq, no axioms) over a model of anchors.py (scan_for_anchors, rename_anchor, "
+        "text": ("30 theorems (Coq, no axioms) over a model of anchors.py (scan_for_anchors, rename_anchor, "
                  "replace_anchor, the unique-name loop with explicit fuel |known|+1 PROVED sufficient) and "
-                 "Merger._resolve_anchor_conflicts: stop refuses; equal values are no conflict and leave the "
-                 "right document untouched; left / right make every alias of every common name read the chosen "
-                 "value (loop invariant over all common names; side conditions: anchors on scalars, no anchored "
-                 "hash keys); the rename loop returns a name outside the known set; replace_anchor is a "
-                 "substitution; C10_rename (both values kept; exactly the right-hand definition and every alias carry "
-                 "the new name, which neither input used) and C10_unique_names (accepted -> one node per anchor "
-                 "name, for all four policies) under computable well-formedness conditions; the lift through the "
-                 "recursive core of the C05 merge (C10_lift_reads / C10_lift_unique; the root dispatch step is "
-                 "still tie-only, docs/C10.md).  Tie: pairs of documents defining/aliasing scalar anchors from a 3-name pool x "
-                 "4 anchor policies x merge policies, compared after conflict resolution and after merge_with; "
+                 "Merger._resolve_anchor_conflicts + merge_with: stop refuses (exactly when a common name differs, "
+                 "under plain keys); equal values are no conflict and leave the right document untouched; left / "
+                 "right / rename / unique names are proved of the resolved pair AND of the document merge_with "
+                 "returns (C10_left_final, C10_right_final, C10_rename_final, C10_unique_names_final: the merge "
+                 "proper INCLUDING its root dispatch creates no anchored Scalar and changes none; set members carry "
+                 "no anchor in a tidy document); the guards are computable (an_doc_tidy, one_node_per_name_b, "
+                 "an_heap_ok_b, proved equivalent to the Prop-level conditions) and evaluated by the extracted model "
+                 "and on the real object graph for every case; C10_no_crash_partial (plain keys, every "
+                 "configuration: a pair, MergeException under stop, or NameError of a bad policy text - no "
+                 "KeyError / AttributeError / OutOfFuel) with C10_no_crash_refuted (listed finding F-C10-3: an "
+                 "anchored key replaced by an anchored container ends in TypeError); _refuted witnesses for F-C10-1 "
+                 "and F-C10-2.  Tie: pairs of documents defining/aliasing scalar anchors from a 3-name pool x "
+                 "4 anchor policies x merge policies, compared after conflict resolution, after merge_with and on "
+                 "the theorems' guards; "
                  "the judge dumps the real result with ruamel, scans for duplicate/undefined anchors and reloads "
                  "it with yamlpath's loader."),
         "design_ref": "DESIGN.md section 4 (C10), docs/C10.md",
